@@ -186,10 +186,11 @@ def harness(ctx, args, cases=None, timeout=1800, race=False, env=None):
         r = subprocess.run([binp] + args, input=inp, capture_output=True, text=True, timeout=timeout, env=e)
     except subprocess.TimeoutExpired:
         raise Infra("harness %s timed out after %ds" % (args, timeout))
-    if r.returncode != 0 and "fatal error: concurrent map" in r.stderr and not (env or {}).get("VERIF_SERIAL") and not race:
-        # the Go runtime aborted the whole process because independent cases (run in parallel) touched one map: no verdict can be
-        # read from that; run the cases one after the other instead, so that each yields its event
-        ctx.log("harness %s aborted by the Go runtime (concurrent map access between independent cases); re-running the cases serially" % " ".join(args))
+    if r.returncode != 0 and ("fatal error:" in r.stderr or "panic:" in r.stderr) and not (env or {}).get("VERIF_SERIAL") and not race:
+        # the Go runtime aborted the whole process while independent cases ran in parallel (one map or one verifier's hidden state touched
+        # by several of them, a panic in a goroutine the library started): no verdict can be read from that; run the cases one after the
+        # other instead, so that each yields its event
+        ctx.log("harness %s aborted by the Go runtime while cases ran in parallel (%s); re-running the cases serially" % (" ".join(args), (r.stderr.strip().splitlines() or ["?"])[0][:120]))
         ctx.notes["harness_rerun_serially"] = True
         return harness(ctx, args, cases, timeout=timeout * 4, race=race, env=dict(env or {}, VERIF_SERIAL="1"))
     if r.returncode != 0:
